@@ -27,7 +27,15 @@ func NewLogHist(b int, m float64, max float64) *LogHist {
 }
 
 func (h *LogHist) bin(x float64) int {
-	return int(math.Floor(h.mOverLogb * math.Log(x)))
+	// Clamp before converting to int: the conversion of a float
+	// beyond the range of int is implementation-specific.
+	b := math.Floor(h.mOverLogb * math.Log(x))
+	if !(b >= 0) {
+		return -1
+	} else if b >= float64(len(h.bins)) {
+		return len(h.bins)
+	}
+	return int(b)
 }
 
 func (h *LogHist) Add(x float64) {
